@@ -535,7 +535,8 @@ impl Check for Monitoring {
         for _ in 0..n {
             let burst = if rng.chance(1, 3) { 1u64 } else { 0 };
             let i = rng.below(n_nodes as u64);
-            match rng.weighted(&[34, 12, 7, 7, 4, 6, 8, 3, 3, 2, 3, 2]) {
+            match rng.weighted(&[34, 12, 7, 7, 4, 6, 8, 3, 3, 2, 3, 2, 4]) {
+                12 => ops.push(jarr!["local", 0u64, burst, rng.below(2), rng.below(5), rng.chance(2, 3)]),
                 0 => {
                     let role = Role::from_u(nodes[i as usize].i("role", 0) as u64);
                     let spec = gen_rspec(&mut rng, role, asn_for(role, i as usize));
@@ -579,7 +580,7 @@ impl Check for Monitoring {
 
     fn info(&self) -> CheckInfo {
         CheckInfo {
-            rule: "1-3 real sessions (eBGP / iBGP, optional add-path in either direction, optional graceful restart, extended messages, optionally an IPv6 transport peer) announcing and withdrawing IPv4 / IPv6 prefixes with several path ids, dropping by FIN, RST, NOTIFICATION or operator reset and coming back, End-of-RIB, waits across the restart timer and the BMP reconnect delay; 1-2 BMP stations (policy pre / post / both / local / all) added and deleted through the gRPC handlers at arbitrary points, also inside bursts of updates that are not allowed to settle; the station connection has seeded latency, fragmentation and a small window, and the station may stall (stop reading), close or reset. At each quiescent point a station that has caught up is compared with the RIB. non-trivial = a caught-up station was compared for at least one peer with routes; distinct = transport event signature".into(),
+            rule: "1-3 real sessions (eBGP / iBGP, optional add-path in either direction, optional graceful restart, extended messages, optionally an IPv6 transport peer) announcing and withdrawing IPv4 / IPv6 prefixes with several path ids, dropping by FIN, RST, NOTIFICATION or operator reset and coming back, End-of-RIB, routes originated and deleted by the operator, waits across the restart timer and the BMP reconnect delay; 1-2 BMP stations (policy pre / post / both / local / all) added and deleted through the gRPC handlers at arbitrary points, also inside bursts of updates that are not allowed to settle; the station connection has seeded latency, fragmentation and a small window, and the station may stall (stop reading), close or reset. At each quiescent point a station that has caught up is compared with the RIB. non-trivial = a caught-up station was compared for at least one peer with routes; distinct = transport event signature".into(),
             components_real: vec![
                 "BmpClient::{try_connect, serve} with its subscription, fold_snapshot_event, flush_peer_snapshot, live loop, track_peer_up/down; GrpcService::{add_bmp, delete_bmp}".into(),
                 "packet::bmp::BmpCodec / PerPeerHeader / PeerDownReason and the embedded bgp::PeerCodec".into(),
@@ -756,6 +757,22 @@ async fn run(case: Json, tol: Tolerate, prop: &'static str) -> Outcome {
                         t.nodes[i].spk.process_inbox(now);
                         t.nodes[i].spk.close();
                     }
+                }
+            }
+            "local" => {
+                // the operator originates / deletes a route: no neighbour's Adj-RIB-In changes, and a
+                // station must not be told of a peer it was never told is up
+                let fam = op.at(3).as_usize() % 2;
+                let net = packet::PathNlri { path_id: 0, nlri: if fam == 0 { v4_prefix(op.at(4).as_u64()) } else { v6_prefix(op.at(4).as_u64()) } };
+                let f = if fam == 0 { Family::IPV4 } else { Family::IPV6 };
+                if op.at(5).as_bool() {
+                    let attrs = vec![packet::Attribute::new_with_value(packet::Attribute::ORIGIN, 0).unwrap(), packet::Attribute::new_with_bin(packet::Attribute::AS_PATH, vec![]).unwrap()];
+                    let nh = if fam == 0 { bgp::Nexthop::V4(Ipv4Addr::UNSPECIFIED) } else { bgp::Nexthop::V6(Ipv6Addr::UNSPECIFIED) };
+                    t.w.tables.insert_route(table::Source::local(), f, net, Some(nh), Arc::new(attrs), None, 0);
+                    out.hit("op.local-route-added");
+                } else {
+                    t.w.tables.remove_route(table::Source::local(), f, net, None, 0);
+                    out.hit("op.local-route-removed");
                 }
             }
             "wait" => {
